@@ -237,7 +237,9 @@ impl<R: std::io::Read> LexicographicIterator for StreamingLexIterator<R> {
     type Error = ZiporaError;
 
     fn current(&self) -> Option<&str> {
-        if self.finished || self.current_line.is_empty() {
+        // An empty line is a valid (empty) string; there is no current string only
+        // before the first next() and after the end of the stream
+        if self.finished || self.line_number == 0 {
             None
         } else {
             Some(&self.current_line)
